@@ -168,7 +168,7 @@ func (p *natPrinter) item(it *Item, level int) {
 	switch {
 	case len(it.Body) == 0 && (p.coin(2) || !p.fancy):
 		p.sb.WriteString("}" + p.trailer() + p.nl)
-	case len(it.Body) == 1 && it.Body[0].K == "attr" && p.coin(3) && !(it.Body[0].Val.K == "s" && strings.Contains(it.Body[0].Val.S, "\n") && false):
+	case len(it.Body) == 1 && it.Body[0].K == "attr" && p.coin(3):
 		// single-line block with exactly one attribute
 		a := it.Body[0]
 		p.sb.WriteString(p.sp() + a.Name + p.sp() + "=" + p.sp() + p.expr(a.Val, level, false) + p.sp() + "}" + p.trailer() + p.nl)
@@ -209,8 +209,18 @@ func (p *natPrinter) heredoc(s string, level int) {
 		}
 		delim = "ZZ_END_9"
 	}
-	body := tmplEscape(s)
-	lines := strings.Split(strings.TrimSuffix(body, "\n"), "\n")
+	raw := strings.Split(strings.TrimSuffix(s, "\n"), "\n")
+	lines := make([]string, len(raw))
+	for i, ln := range raw {
+		lines[i] = tmplEscape(ln)
+		if p.r.Intn(5) == 0 {
+			// part of the line as the interpolation of a string literal
+			if s1, s2, s3, ok := splitForInterp(ln, p.r.Intn); ok {
+				lines[i] = tmplEscape(s1) + "${" + p.quoted(s2) + "}" + tmplEscape(s3)
+				p.stats["nat:heredoc-interpolation"]++
+			}
+		}
+	}
 	flush := false
 	if p.r.Intn(2) == 0 {
 		// indented heredoc: the smallest common leading indentation is removed. Only used
@@ -226,11 +236,7 @@ func (p *natPrinter) heredoc(s string, level int) {
 	if flush {
 		pad := strings.Repeat(" ", 1+p.r.Intn(6))
 		p.sb.WriteString("<<-" + delim + p.nl)
-		for i, ln := range lines {
-			extra := ""
-			if i > 0 && p.r.Intn(3) == 0 {
-				_ = extra // deeper lines would change the text; keep the pad uniform
-			}
+		for _, ln := range lines {
 			p.sb.WriteString(pad + ln + p.nl)
 		}
 		p.sb.WriteString(strings.Repeat(" ", p.r.Intn(len(pad)+3)) + delim + p.nl)
@@ -248,6 +254,18 @@ func (p *natPrinter) heredoc(s string, level int) {
 // quoted: a quoted template whose value is exactly s.
 func (p *natPrinter) quoted(s string) string {
 	return `"` + natEscape(tmplEscape(s), p.fancy, p.r) + `"`
+}
+
+// quotedValue: like quoted, but a part of the string may be written as the interpolation of
+// a string literal ("ab${"cd"}ef"), which evaluates to the same string.
+func (p *natPrinter) quotedValue(s string) string {
+	if p.coin(6) {
+		if s1, s2, s3, ok := splitForInterp(s, p.r.Intn); ok {
+			p.stats["nat:literal-interpolation"]++
+			return `"` + natEscape(tmplEscape(s1), true, p.r) + "${" + p.sp() + p.quoted(s2) + p.sp() + "}" + natEscape(tmplEscape(s3), true, p.r) + `"`
+		}
+	}
+	return p.quoted(s)
 }
 
 func natEscape(s string, fancy bool, r *rand.Rand) string {
@@ -313,7 +331,7 @@ func (p *natPrinter) refText(v *Val) string {
 func (p *natPrinter) expr(v *Val, level int, multi bool) string {
 	switch v.K {
 	case "s":
-		return p.quoted(v.S)
+		return p.quotedValue(v.S)
 	case "n":
 		return p.number(v.N)
 	case "b":
